@@ -128,13 +128,14 @@ def write_dataset(root, world, storage):
             }
         )
         ex, ey, ez, eyaw = s["ego"]
+        epitch, eroll = s.get("ego_rp", (0.0, 0.0))
         for sn, sen in enumerate(sensors):
             tok = "sd%03d_%05d" % (sn, i)
             ego_rows.append(
                 {
                     "token": "ego" + tok,
                     "translation": [float(ex), float(ey), float(ez)],
-                    "rotation": _quat_from_yaw(eyaw),
+                    "rotation": list(rm.q_from_ypr(eyaw, epitch, eroll)),
                     "timestamp": int(s["t"]),
                 }
             )
